@@ -80,7 +80,8 @@ func JobsFor(prop, tier string) []Job {
 		return append(histJobs("audit", 8000, 400000, 800, 30000, stdMemFaults, stdRealFaults),
 			Job{Engine: "bigbulk", Backends: []string{"bbolt", "bbolt", "badger-disk", "mem-sw-livecur"}, Quick: 100, Thorough: 3000, Params: map[string]string{"maxN": "2500"}})
 	case "C08":
-		return histJobs("sort", 8000, 400000, 800, 30000, []string{"none", "none", "restarts", "faults"}, stdRealFaults)
+		return append(histJobs("sort", 8000, 400000, 800, 30000, []string{"none", "none", "restarts", "faults"}, stdRealFaults),
+			Job{Engine: "bigbulk", Backends: []string{"mem-sw-livecur", "mem-opt-snapcur", "bbolt", "badger-mem"}, Quick: 160, Thorough: 4000, Params: map[string]string{"maxN": "2500", "reads": "1"}})
 	case "C09":
 		return histJobs("derived", 8000, 400000, 800, 30000, stdMemFaults, stdRealFaults)
 	case "C11":
@@ -113,7 +114,7 @@ func init() {
 	extraJobs["C04"] = func(tier string) []Job {
 		return []Job{
 			{Engine: "fault", Backends: memAll, Quick: 1500, Thorough: 60000},
-			{Engine: "fault", Backends: []string{"bbolt", "badger-mem"}, Quick: 60, Thorough: 3000},
+			{Engine: "fault", Backends: []string{"bbolt", "badger-mem", "badger-mem", "badger-disk"}, Quick: 160, Thorough: 6000},
 			{Engine: "hist", Mode: "ids", Backends: memAll, Faults: []string{"faults", "none"}, Quick: 2000, Thorough: 80000, Opt: fullOpt},
 			{Engine: "hist", Mode: "audit", Backends: memAll, Faults: []string{"faults"}, Quick: 2000, Thorough: 80000, Opt: fullOpt},
 			{Engine: "hist", Mode: "export", Backends: memAll, Faults: []string{"faults"}, Quick: 1000, Thorough: 40000, Opt: fullOpt},
@@ -122,8 +123,8 @@ func init() {
 	}
 	extraJobs["C05"] = func(tier string) []Job {
 		return []Job{
-			{Engine: "crash", Backends: memAll, Quick: 1500, Thorough: 60000},
-			{Engine: "fault", Backends: memAll, Quick: 700, Thorough: 30000},
+			{Engine: "crash", Backends: memAll, Quick: 1000, Thorough: 60000},
+			{Engine: "fault", Backends: memAll, Quick: 400, Thorough: 30000},
 			{Engine: "hist", Mode: "audit", Backends: memAll, Faults: []string{"crashes", "restarts"}, Quick: 2000, Thorough: 80000, Opt: fullOpt},
 			{Engine: "hist", Mode: "bulk", Backends: []string{"bbolt", "bbolt", "badger-disk"}, Faults: []string{"restarts"}, Quick: 400, Thorough: 15000, Opt: fullOpt},
 			{Engine: "crashproc", Backends: []string{"bbolt", "bbolt", "badger-disk"}, Quick: 64, Thorough: 2500, Params: map[string]string{"points": "10", "strace": "1"}},
@@ -138,6 +139,7 @@ func init() {
 	extraJobs["C15"] = func(tier string) []Job {
 		return []Job{
 			{Engine: "diff", Quick: 400, Thorough: 20000},
+			{Engine: "diffbig", Quick: 6, Thorough: 120},
 			{Engine: "cursor", Backends: []string{"bbolt", "bbolt", "badger-mem", "badger-disk"}, Quick: 1200, Thorough: 60000},
 			{Engine: "cursor", Backends: []string{"mem-sw-livecur", "mem-opt-snapcur"}, Quick: 400, Thorough: 20000},
 		}
